@@ -35,7 +35,7 @@ Print Assumptions C18_settings.
    (Server.externalDeclarations, repaired in /repo by fix 2b08bc6; before it the include tree was
    left out).  The rule is sensitive to that set, which is why the scope matters: *)
 Definition scope_witness : journal :=
-  mkJournal [mkTx (mkDate 2024 1 1 rng0) None StNone [] (bs "x") [] []
+  mkJournal [mkTx (mkDate 2024 1 1 rng0) None StNone [] (bs "x") [] [] rng0
                   [mkPosting StNone (bs "other:acct") rng0 None None None [] [] VNone rng0] [] [] rng0] [] [] [].
 Theorem C18_scope_matters :
   analyze_warnings scope_witness [] [] default_settings = [] /\
